@@ -136,24 +136,30 @@ def run_task(t):
             sq = E.sum([E.mul(E.add(a, b, -1), E.add(a, b, -1)) for a, b in zip(an, nu)])
             sc.real_eq('error_norm^2 == sum (analytical - numerical)^2', None, sq, lhs_val=E.mul(err, err), with_path=False)
             sc.real_true('error_norm >= 0', E.le_formula(R.VZERO, err), with_path=False)
-            # relative error and verdict: located through the recorded comparisons
-            errn = g.outs['R.err']
-            thr_forks = [f for f in g.path if f[0] == 'lt' and g.nodes[f[1]][0] == D.CONST and D.hex2f(g.nodes[f[1]][1]) == 1e-9 and g.nodes[f[2]][0] == D.SQRT]
-            sc.check('rel_error switches on |analytical| > 1e-9 (one comparison of the gradient norm with 1e-9)', len(thr_forks) == 1, '%d such comparisons' % len(thr_forks))
-            if thr_forks:
-                gn = E.node(thr_forks[0][2])
-                gsq = E.sum([E.mul(a, a) for a in an])
-                sc.real_eq('the norm compared with 1e-9 is |analytical|', None, gsq, lhs_val=E.mul(gn, gn), with_path=False)
-                if thr_forks[0][3]:
-                    sc.real_eq('rel_error == error_norm / |analytical| (gradient norm above 1e-9)', 'R.rel', E.div(err, gn), with_path=False)
-                else:
-                    sc.real_eq('rel_error == error_norm (gradient norm not above 1e-9)', 'R.rel', err, with_path=False)
-            tolnode = g.varid['tol'] if explicit else None
-            vf = [f for f in g.path if f[0] == 'lt' and f[1] == errn and (f[2] == tolnode if explicit else (g.nodes[f[2]][0] == D.CONST and D.hex2f(g.nodes[f[2]][1]) == 1e-4))]
-            sc.check('the verdict is the comparison error_norm < tol', len(vf) == 1, 'comparisons of error_norm with tol on the path: %d' % len(vf))
-            if vf:
-                sc.int_eq('valid == (error_norm < tol) on this path', 'R.valid', vf[0][3])
-                sc.int_eq('report says PASSED iff valid', 'R.reportPassed', vf[0][3])
+            # relative error and verdict: semantic statements on the recorded path (whatever comparisons the code used to get there)
+            gsq = E.sum([E.mul(a, a) for a in an])
+            thr = R.Val(Fraction(1, 10 ** 9))
+            rel = E.out('R.rel')
+            # |analytical|: a square root the code itself took whose square is sum analytical_i^2 (any such node will do); if the
+            # code computes the norm in another way a fresh non-negative G with G^2 = sum analytical_i^2 is used (harder for nlsat)
+            roots = list(g.slice([g.outs['R.rel']])) + [x for f in g.path for x in (f[1], f[2]) if x >= 0]
+            G, defs = None, []
+            for j in sorted(set(roots)):
+                if g.nodes[j][0] == D.SQRT and j != g.outs['R.err']:
+                    y = E.node(j)
+                    if z3.is_false(E.ne_formula(E.mul(y, y), gsq)) or R.solve('gn', sc.base(False) + [E.ne_formula(E.mul(y, y), gsq)], 10).status == 'unsat':
+                        G = y
+                        break
+            if G is None:
+                G = E.vvar('GNORM')
+                defs = [E.fac[next(iter(G.f))] >= 0, E.eq_formula(E.mul(G, G), gsq)]
+            f_rel = z3.Or(z3.And(E.lt_formula(thr, G), E.eq_formula(E.mul(rel, G), err)), z3.And(E.le_formula(G, thr), E.eq_formula(rel, err)))
+            sc.real_true('rel_error == error_norm / |analytical| if |analytical| > 1e-9 else error_norm', f_rel, extra=defs)
+            tolv = E.node(g.varid['tol']) if explicit else R.Val(Fraction(1, 10 ** 4))
+            valid = g.ints['R.valid']
+            f_valid = E.lt_formula(err, tolv) if valid else z3.Not(E.lt_formula(err, tolv))
+            sc.real_true('valid == (error_norm < tol): the path on which valid=%d implies error_norm %s tol' % (valid, '<' if valid else '>='), f_valid)
+            sc.int_eq('report says PASSED iff valid', 'R.reportPassed', valid)
             # state restored: the workspace spline is the one defined by x
             compare_all(sc, g, 'RS.', 'ES.', 'workspace spline after checkGradients == spline of evaluate(x)', ints_in_both=True)
             out.append(sc)
